@@ -67,6 +67,17 @@ def c02(tier, seed, work):
                store_consts(Buckets={"bkt1"}, KeySetName="nest", Bodies={"x1"},
                             OpNames=CORE_OPS - {"HeadBucket", "ListBuckets", "CreateBucket", "DeleteBucket"} | {"CreateBucket"}),
                ALL4, keys="rich3", small=True, **st)
+    # configurations: a front end built without versioning on the versioned backend, with the time-skew limit, with the
+    # integrity check off, with clocks that stand still (every time source fixed: all timestamps equal), and the
+    # multi-bucket fs backend with its metadata on a separate file system
+    for tag, sysl, o, cfgn in (("noversioning", ["mem"], "noversioning", "plain"), ("skew", ["mem", "bolt"], "skew", None),
+                               ("nointegrity", ["mem", "multimem"], "nointegrity", None),
+                               ("fixed-clock", ["mem", "bolt", "multimem"], "fixedclock", None),
+                               ("separate-metadata-fs", ["multimem"], "metafs", None)):
+        kw = dict(CfgName=cfgn) if cfgn else {}
+        tour_stage(rep, work, "option-" + tag, "MC_Store",
+                   store_consts(Buckets={"bkt1"}, KeySetName="nest2", Bodies={"x1"}, OpNames=CORE_OPS | {"PutMetaB"}, **kw), sysl,
+                   opts=o, small=True, **st)
     # beyond the listed operations: forced bucket deletion (x-minio-force-delete) and conditional reads (If-None-Match)
     tour_stage(rep, work, "force-delete-cond-get", "MC_Store",
                store_consts(Buckets={"bkt1"}, Bodies={"x1", "x2"},
@@ -140,6 +151,14 @@ def c05(tier, seed, work):
     tour_stage(rep, work, "go-api-ver-1k-2v", "MC_Store",
                store_consts(Buckets={"bkt1"}, KeySetName="a", CfgName="mem", OpNames=VER_OPS, MaxVids=2, Ghosts=False),
                ["mem"], addr="api", **st)
+    # configurations of the in-memory backend: clocks that stand still (all versions carry the same timestamp) and a
+    # negative version seed
+    for tag, o in (("fixed-clock", "fixedclock"), ("negative-version-seed", "negseed")):
+        tour_stage(rep, work, "ver-1k-3v-" + tag, "MC_Store",
+                   store_consts(Buckets={"bkt1"}, KeySetName="a", CfgName="mem", Bodies={"x1"}, MaxVids=3, Ghosts=False,
+                                OpNames={"CreateBucket", "PutObject", "DeleteObject", "PutVersioning",
+                                         "DeleteObjectVersion", "GetObject", "ListVersions"}),
+                   ["mem"], opts=o, small=True, **st)
     # three versions, without the status-reading operations
     tour_stage(rep, work, "ver-1k-3v", "MC_Store",
                store_consts(Buckets={"bkt1"}, KeySetName="a", CfgName="mem", Bodies={"x1"}, MaxVids=3, Ghosts=False,
@@ -302,6 +321,12 @@ def c13(tier, seed, work):
                             OpNames={"CreateBucket", "PutObject", "DeleteObject", "PutVersioning",
                                      "DeleteObjectVersion"}),
                ["mem"], "versions", emit=None, invariants=["EmitState"])
+    # the same on differently configured in-memory backends: a negative version seed, clocks that stand still
+    for tag, o in (("negative-version-seed", "negseed"), ("fixed-clock", "fixedclock")):
+        walk_stage(rep, work, "version-walks-" + tag, "MC_Store",
+                   store_consts(Buckets={"bkt1"}, KeySetName="nest2", CfgName="mem", Bodies={"x1"}, MaxVids=2, Ghosts=False,
+                                OpNames={"CreateBucket", "PutObject", "DeleteObject", "PutVersioning"}),
+                   ["mem"], "versions", emit=None, invariants=["EmitState"], opts=o)
     # the same with unusual characters in the keys and prefixes cut inside them
     walk_stage(rep, work, "version-walks-odd-characters", "MC_Store",
                store_consts(Buckets={"bkt1"}, KeySetName="nest2", CfgName="mem", Bodies={"x1"}, MaxVids=2, Ghosts=False,
@@ -348,6 +373,11 @@ def c06(tier, seed, work):
                    ["mem"], small=True, memtrace=True, **st)
     # beyond the small scope: one upload of 1003 parts (more than the listing page limit) completed with all of them
     conc_stage(rep, work, "scale-1003-parts", ["mem", "bolt", "multimem"], [1], runs=0, ops=0, keys=1, gated=False, big="multipart")
+    # with clocks that stand still (a re-uploaded part carries the same timestamp as the part it replaces)
+    tour_stage(rep, work, "mp-fixed-clock", "MC_Store",
+               store_consts(Buckets={"bkt1"}, KeySetName="a", Bodies={"x1"}, PartBodies={"p1", "p2"}, MaxUploads=1, MaxList=2,
+                            Ghosts=False, OpNames={"CreateBucket", "Initiate", "UploadPart", "Complete", "Abort", "GetObject", "ListParts"}),
+               ["mem", "multimem"], opts="fixedclock", small=True, **st)
     # multipart life cycle on keys that are not valid UTF-8
     tour_stage(rep, work, "mp-invalid-utf8-keys", "MC_Store",
                store_consts(Buckets={"bkt1"}, KeySetName="hostile5", Bodies={"x1"}, PartBodies={"p1"}, PartNums={1}, MaxUploads=1,
@@ -490,6 +520,16 @@ def c16(tier, seed, work):
                    store_consts(Buckets={"bkt1"}, KeySetName="list", Bodies={"x1"}, Ghosts=False,
                                 OpNames={"CreateBucket", "PutObject", "GetObject", "HeadObject", "DeleteObject", "CopyObject", "ListObjects"}),
                    ["mem", "bolt"], opts=opts, addr=addr, keys="rich", small=True)
+    # a bucket whose name is longer than any Host header in use, every operation kind incl. multipart, path-style and
+    # host-style under each routing option
+    longb = "a-bucket-with-quite-a-long-name-0123456789"
+    for opts, addr in (("bases=s3.test", ""), ("bases=s3.test", "host:s3.test"), ("hostbucket", "host:!s3.test"), ("", "")):
+        tour_stage(rep, work, "long-bucket-name " + (opts or "path") + "/" + (addr or "path-style"), "MC_Store",
+                   store_consts(Buckets={longb}, KeySetName="a", Bodies={"x1"}, PartBodies={"p1"}, PartNums={1}, MaxUploads=1,
+                                MaxList=1, Ghosts=False,
+                                OpNames={"CreateBucket", "PutObject", "GetObject", "DeleteObject", "ListObjects", "Initiate",
+                                         "UploadPart", "Complete", "Abort", "DeleteBucket"}),
+                   ["mem", "multimem"], opts=opts, addr=addr, small=True)
     for opts, addr in modes:
         tag = (opts or "path") + "/" + addr
         tour_stage(rep, work, "store " + tag, "MC_Store",
@@ -780,6 +820,13 @@ def c10(tier, seed, work):
                store_consts(Buckets={"bkt1"}, KeySetName="a", Bodies={"x1"}, BadBuckets=bad,
                             OpNames={"CreateBucket", "PutObject", "DeleteObject", "ListBuckets"}, Ghosts=False),
                ["mem", "bolt", "multimem", "multios"], small=True, **st)
+    # ... not even with the auto-bucket option, which creates whatever bucket a request names (each backend with the
+    # names that are internal to it; names that are merely invalid are auto-created, which no property forbids)
+    for tag, sysl, names in (("bolt", ["bolt"], {"_meta"}), ("fs", ["multimem", "multios"], {".", ".."})):
+        tour_stage(rep, work, "internal-names-auto-bucket-" + tag, "MC_Store",
+                   store_consts(Buckets={"bkt1"}, KeySetName="a", Bodies={"x1"}, BadBuckets=names, CfgName="plainauto",
+                                OpNames={"CreateBucket", "PutObject", "DeleteObject", "ListBuckets"}, Ghosts=False),
+                   sysl, opts="auto", small=True, **st)
     # path-like keys ('..', './', '//', leading '/', paths into the other bucket or the metadata store): from every
     # reachable state of two buckets with canary objects, each operation kind with each such key; any complete
     # reply is admissible, but all canaries, the bucket list and the other bucket's listing must be unchanged
